@@ -236,12 +236,20 @@ def only_none_guards(extra, *names):
 
 
 MUTATORS = ('append', 'extend', 'insert', 'pop', 'remove', 'clear', 'update', 'add', 'discard', 'setdefault', 'popitem', 'sort', 'reverse', 'appendleft', 'popleft')
+SYNC_USES = ('put', 'put_nowait', 'get', 'get_nowait', 'set', 'clear', 'wait', 'acquire', 'release', 'notify', 'notify_all', 'join', 'task_done')   # of a queue / event / lock
+
+
+def _is_sync_object(e):
+    return isinstance(e, ast.Call) and (dotted(e.func) or '').split('.')[-1] in ('Queue', 'LifoQueue', 'PriorityQueue', 'SimpleQueue', 'Event', 'Lock', 'RLock', 'Condition', 'Semaphore')
 
 
 def _is_mutable_display(e):
     if isinstance(e, (ast.List, ast.Dict, ast.Set, ast.ListComp, ast.DictComp, ast.SetComp)):
         return True
-    return isinstance(e, ast.Call) and isinstance(e.func, ast.Name) and e.func.id in ('list', 'dict', 'set', 'bytearray', 'deque', 'defaultdict', 'OrderedDict') and not e.args
+    if isinstance(e, ast.Call) and isinstance(e.func, ast.Name) and e.func.id in ('list', 'dict', 'set', 'bytearray', 'deque', 'defaultdict', 'OrderedDict') and not e.args:
+        return True
+    # one queue / event / lock object made when the def or class statement runs
+    return isinstance(e, ast.Call) and (dotted(e.func) or '').split('.')[-1] in ('Queue', 'LifoQueue', 'PriorityQueue', 'SimpleQueue', 'Event', 'Lock', 'RLock', 'Condition', 'Semaphore', 'deque')
 
 
 def shared_state_rules(ctx, rule, paths, only=None):
@@ -261,8 +269,9 @@ def shared_state_rules(ctx, rule, paths, only=None):
             for p_, d_ in pairs:
                 if not _is_mutable_display(d_):
                     continue
+                MUT = SYNC_USES if _is_sync_object(d_) else MUTATORS
                 changed = [norm(x)[:50] for x in ast.walk(f.node) if
-                           (isinstance(x, ast.Call) and isinstance(x.func, ast.Attribute) and x.func.attr in MUTATORS and isinstance(x.func.value, ast.Name) and x.func.value.id == p_.arg) or
+                           (isinstance(x, ast.Call) and isinstance(x.func, ast.Attribute) and x.func.attr in MUT and isinstance(x.func.value, ast.Name) and x.func.value.id == p_.arg) or
                            (isinstance(x, ast.Subscript) and isinstance(x.ctx, (ast.Store, ast.Del)) and isinstance(x.value, ast.Name) and x.value.id == p_.arg) or
                            (isinstance(x, ast.AugAssign) and isinstance(x.target, ast.Name) and x.target.id == p_.arg)]
                 stored = []
@@ -271,7 +280,7 @@ def shared_state_rules(ctx, rule, paths, only=None):
                         for t in x.targets:
                             # kept on the object AND changed in place through that attribute by some method of the class
                             if isinstance(t, ast.Attribute) and isinstance(t.value, ast.Name) and t.value.id == 'self' and f.cls is not None and any(
-                                    (isinstance(y, ast.Call) and isinstance(y.func, ast.Attribute) and y.func.attr in MUTATORS and norm(y.func.value) == 'self.' + t.attr) or
+                                    (isinstance(y, ast.Call) and isinstance(y.func, ast.Attribute) and y.func.attr in MUT and norm(y.func.value) == 'self.' + t.attr) or
                                     (isinstance(y, ast.Subscript) and isinstance(y.ctx, (ast.Store, ast.Del)) and norm(y.value) == 'self.' + t.attr) or
                                     (isinstance(y, ast.AugAssign) and norm(y.target) == 'self.' + t.attr)
                                     for y in ast.walk(f.cls.node)):
@@ -286,13 +295,16 @@ def shared_state_rules(ctx, rule, paths, only=None):
             for st in c.node.body:
                 if isinstance(st, ast.Assign) and len(st.targets) == 1 and isinstance(st.targets[0], ast.Name) and _is_mutable_display(st.value):
                     cl[st.targets[0].id] = st
+                elif isinstance(st, ast.AnnAssign) and isinstance(st.target, ast.Name) and st.value is not None and _is_mutable_display(st.value):
+                    cl[st.target.id] = st                        # `cb: list = []` is a class attribute all the same
             for name, st in cl.items():
                 if name.isupper():
                     continue                      # tables by convention
                 rebinds = [x for x in ast.walk(c.node) if isinstance(x, ast.Attribute) and isinstance(x.ctx, ast.Store) and x.attr == name and
                            isinstance(x.value, ast.Name) and x.value.id == 'self']
+                MUT = SYNC_USES if _is_sync_object(st.value) else MUTATORS
                 changes = [norm(x)[:50] for x in ast.walk(c.node) if
-                           (isinstance(x, ast.Call) and isinstance(x.func, ast.Attribute) and x.func.attr in MUTATORS and isinstance(x.func.value, ast.Attribute) and
+                           (isinstance(x, ast.Call) and isinstance(x.func, ast.Attribute) and x.func.attr in MUT and isinstance(x.func.value, ast.Attribute) and
                             x.func.value.attr == name and isinstance(x.func.value.value, ast.Name) and x.func.value.value.id == 'self') or
                            (isinstance(x, ast.Subscript) and isinstance(x.ctx, (ast.Store, ast.Del)) and isinstance(x.value, ast.Attribute) and x.value.attr == name and
                             isinstance(x.value.value, ast.Name) and x.value.value.id == 'self') or
@@ -367,6 +379,20 @@ def generic_rules(ctx, rule='RG'):
     only = {(p, q) for p, q in ctx.functions if q}
     paths = sorted({p for p, _ in only if p.endswith('.py')})
     paths = [p for p in paths if ctx.model.exists(p)]
+    # ... and the methods of the same class they call directly (`self._find_block(..)`): a helper of a function that implements
+    # the property implements it too
+    for p_ in paths:
+        mod_ = ctx.model.mod(p_)
+        byq = {f_.qualname: f_ for f_ in mod_.all_funcs()}
+        for (pp, q) in list(only):
+            f_ = byq.get(q) if pp == p_ else None
+            if f_ is None or '.' not in q:
+                continue
+            cls_q = q.rsplit('.', 1)[0]
+            for c_ in walk_own(f_.node):
+                if isinstance(c_, ast.Call) and isinstance(c_.func, ast.Attribute) and isinstance(c_.func.value, ast.Name) and c_.func.value.id in ('self', 'cls') and \
+                        (cls_q + '.' + c_.func.attr) in byq:
+                    only.add((p_, cls_q + '.' + c_.func.attr))
     n = 0
     n += one_shot_rules(ctx, rule, paths, only)
     n += logging_purity_rules(ctx, rule, paths, only)
@@ -664,6 +690,47 @@ def language_pitfall_rules(ctx, rule, paths, only=None):
                                     late.append('lambda reading %s handed to %s (line %d)' % (hit, callee, call.lineno))
             n += 1
             ctx.inst(rule, f, 'no-late-binding-closure-in-loop', not late, 'a callable created in a loop and run later reads the loop variables when it runs, not when it was made: %s' % late)
+            # a search loop (`for x in xs: if match(x): break`) without else leaves x bound to the LAST element when nothing matched
+            # (or to whatever it was before, for an empty xs): reading x after such a loop takes a non-match for a match
+            stale = []
+            g_ = None
+            for loop in [l for l in walk_own(f.node) if isinstance(l, ast.For) and not l.orelse]:
+                def _own_break(stmts):
+                    for x in stmts:
+                        if isinstance(x, ast.Break):
+                            return True
+                        if isinstance(x, (ast.For, ast.While, ast.FunctionDef, ast.AsyncFunctionDef, ast.ClassDef)):
+                            continue
+                        for fld in ('body', 'orelse', 'finalbody'):
+                            if _own_break(getattr(x, fld, []) or []):
+                                return True
+                        for h in getattr(x, 'handlers', []) or []:
+                            if _own_break(h.body):
+                                return True
+                    return False
+                if not _own_break(loop.body):
+                    continue
+                lv = {x.id for x in ast.walk(loop.target) if isinstance(x, ast.Name)}
+                if g_ is None:
+                    g_ = cfg_of(f)
+                ln = [n_ for n_ in g_.nodes if n_.kind == 'for' and n_.ast is loop]
+                if not ln:
+                    continue
+                body_ids = {n_.id for n_ in g_.loop_body_nodes(ln[0])}
+                # reads of the loop variable reachable from the loop's exhaustion edge, outside the loop, whose reaching definitions
+                # include the loop target itself
+                for n_ in g_.nodes:
+                    if n_.id in body_ids or n_ is ln[0] or n_.ast is None or n_.kind not in ('stmt', 'if', 'while', 'return', 'for'):
+                        continue
+                    from .cfg import _own_exprs
+                    reads = {x.id for root in _own_exprs(n_.ast) for x in walk_own(root) if isinstance(x, ast.Name) and isinstance(x.ctx, ast.Load)} & lv
+                    for v in reads:
+                        defs = g_.reaching_defs(n_, v)
+                        if any(d is ln[0] for d in defs) and g_.path_avoiding(ln[0], [n_], avoid=[], avoid_edges=[e for e in ln[0].succ if e.dst.id in body_ids]) is not None:
+                            stale.append('%s read at line %d after the search loop at line %d' % (v, getattr(n_.ast, 'lineno', 0), loop.lineno))
+            n += 1
+            ctx.inst(rule, f, 'search-loop-variable-not-read-after-the-loop', not stale,
+                     'after a for loop that ends without break the loop variable is the last element, not a match: %s' % sorted(set(stale))[:3])
             fin = []
             for t in [t for t in walk_own(f.node) if isinstance(t, ast.Try) and t.finalbody]:
                 for st in t.finalbody:
